@@ -103,6 +103,22 @@ def generate_active_backend(repo=None):
     path = os.path.join(repo, "joblib", "parallel.py")
     cfg = dict(AB_CFG)
     cfg["skip"] = AB_CFG["skip"] + print_only_skips(path, "_get_active_backend")
+    # DEFAULT_THREAD_BACKEND / DEFAULT_PROCESS_BACKEND are read from the module, not assumed
+    import ast
+    consts = {}
+    for st in ast.parse(open(path, encoding="utf-8").read()).body:
+        if isinstance(st, ast.Assign) and len(st.targets) == 1 and isinstance(st.targets[0], ast.Name) \
+                and st.targets[0].id in ("DEFAULT_THREAD_BACKEND", "DEFAULT_PROCESS_BACKEND") and isinstance(st.value, ast.Constant):
+            consts[st.targets[0].id] = st.value.value
+    kinds = {"threading": "BThr", "loky": "BLoky", "multiprocessing": "BMp", "sequential": "BSeq"}
+    for name in ("DEFAULT_THREAD_BACKEND", "DEFAULT_PROCESS_BACKEND"):
+        if consts.get(name) not in kinds:
+            raise translate.TranslateError("translation of _get_active_backend no longer matches: %s = %r" % (name, consts.get(name)))
+    cfg["subst"] = dict(AB_CFG["subst"])
+    cfg["subst"]["BACKENDS[DEFAULT_THREAD_BACKEND](nesting_level=nesting_level)"] = (
+        "{| ck := %s; clevel := nesting_level |}" % kinds[consts["DEFAULT_THREAD_BACKEND"]], "Z")
+    cfg["subst"]["BACKENDS[DEFAULT_PROCESS_BACKEND](nesting_level=nesting_level)"] = (
+        "{| ck := %s; clevel := nesting_level |}" % kinds[consts["DEFAULT_PROCESS_BACKEND"]], "Z")
     code, skipped = translate.translate_function(path, "_get_active_backend", "src_get_active_backend", cfg)
     out = os.path.join(common.COQ, "Gen", "T_active_backend.v")
     changed = common.write_if_changed(out, AB_HEADER + code)
